@@ -176,6 +176,37 @@ def o_prov(prog, res):
     return n
 
 
+def realloc_covers(prog, res):
+    """Every successful path of set that stores new properties (binning and
+    shape) also re-sizes both buffers: an early-out that keeps the old buffers
+    keeps a size computed for the old binning."""
+    g = prog.func("simcam_set")
+    stores = [(b.id, i, s) for b, i, s in g.all_stmts() for lv, op, rhs, w in ir.writes_of(s)
+              if lv.get("k") == "mem" and obj_key(lv) == (REC, "properties")]
+    if not stores:
+        raise AnalysisBroken("simcam_set no longer stores the properties")
+
+    def to_error(blk, succ):
+        t = succ.get("to")
+        return t is not None and g.blocks[t].label == "Error"
+    for bid, i, s in stores:
+        for bname in BUFS:
+            def resizes(ss, bname=bname):
+                for lv, op, rhs, w in ir.writes_of(ss):
+                    if lv.get("k") == "mem" and obj_key(lv) == (REC, bname) and \
+                            any(c.get("fn") in ("checked_realloc", "realloc", "malloc") for c in ir.calls_in(rhs)):
+                        return True
+                return False
+            ok, w = paths.all_paths_pass(g, (bid, i), "exit", resizes, edge_ok=to_error)
+            inst = "simcam_set: %s re-sized on every successful path that stores new properties" % bname
+            if ok:
+                res.oblige("R-REALLOC-COVERS", inst, True, "", g.loc(s))
+            else:
+                res.fail("R-REALLOC-COVERS", inst, "R-REALLOC-COVERS|simcam_set|%s" % bname, g.loc(s),
+                         "simcam_set can store new properties (binning, shape, pixel type) and return success without re-sizing %s: the buffer keeps the size computed for the previous configuration while the streamer renders the new one"
+                         % bname, {"path_blocks": w})
+
+
 def rounding_function(prog, res):
     g = prog.func("aligned_bytes_of_image")
     res.touched(g)
@@ -336,11 +367,13 @@ def run(ctx, res):
     n = o_prov(prog, res)
     if n < 4:
         raise AnalysisBroken("expected at least 4 buffer uses with a shape, found %d" % n)
+    realloc_covers(prog, res)
     rounding_function(prog, res)
     guards(prog, res)
     pixel_type_mask(prog, res)
     m = buffers_guarded(prog, res)
     res.require_min("O-PROV", 4)
+    res.require_min("R-REALLOC-COVERS", 2)
     res.require_min("GUARD-DOM", 2)
     res.require_min("R-READBACK", 2)
     res.require_min("L-GUARDED", 6)
